@@ -195,7 +195,7 @@ def run(chk):
         'float repr outside positional notation',
     ]
     big = tier != 'quick'
-    N = 700 if not big else 8000
+    N = 700 if not big else 6000
     from peptacular import util as pt_util
     cov = E.LineCoverage([pp.parse_static_mods, pp._parse_modifications, pp._parse_modification, pp._parse_integer,
                           pp.parse_isotope_mods, pp.ProFormaAnnotation.condense_static_mods, pp.ProFormaAnnotation.split,
@@ -368,7 +368,7 @@ def run(chk):
     lab_cases = []
     single = [[x] for x in E.LABELS]
     pairs = [[x, y] for x in E.LABELS for y in E.LABELS if E.LABEL_ELEMENT[x] != E.LABEL_ELEMENT[y]]
-    nl = 600 if not big else 8000
+    nl = 600 if not big else 6000
     for i in range(nl):
         a, rules = E.gen_rule_annotation(rng, labels_p=0.0, max_len=20)
         if rng.random() < 0.5:
